@@ -26,6 +26,14 @@ def check(model: Model, run: Run) -> None:
     no_memoised_views_of_fields(model, run, "W21-nothing-derived-from-the-fields-is-memoised",
                                 [q for q, c in model.classes.items() if c.is_dataclass and c.module in ("sansldap._messages", "sansldap._controls", "sansldap._filter", "sansldap._authentication")],
                                 "what is encoded (or compared) is the object as it was when first asked, not as it is")
+    from ..commonrules import values_compare_by_their_fields, overrides_keep_the_signature
+    _wire_classes = [q for q, c in model.classes.items() if c.is_dataclass and c.module in ("sansldap._messages", "sansldap._controls", "sansldap._filter", "sansldap._authentication")]
+    values_compare_by_their_fields(model, run, "W25-values-compare-by-their-fields", _wire_classes,
+                                   "the decoded message is compared with the original by a relation that is no longer equality of the fields")
+    overrides_keep_the_signature(model, run, "W26-overrides-keep-the-signature",
+                                 ("sansldap._controls.LDAPControl", "sansldap._filter.LDAPFilter", "sansldap._authentication.AuthenticationCredential", "sansldap._messages.LDAPMessage"),
+                                 ("unpack", "pack", "_pack_inner", "get_value"),
+                                 "what the decoder passes for that parameter is lost and the field is built from a default")
     from .c17 import hooks_store_fields_as_given
     wire = sorted(q for q, c in model.classes.items() if c.is_dataclass and c.module in ("sansldap._messages", "sansldap._controls", "sansldap._filter", "sansldap._authentication"))
     hooks_store_fields_as_given(model, run, wire, "W17-fields-held-as-given",
@@ -36,6 +44,8 @@ def check(model: Model, run: Run) -> None:
                        "components, by tag dispatch for optional ones) with the same universal kind, an accepted tag, the SAME dataclass field on both sides, inverse "
                        "conversions and omission <=> decoder default; plus field coverage, protocolOp/choice dispatch and purity of the writers. "
                        "Necessary condition only: value equality and primitive arithmetic (C07) are not decided")
+    from ..tlvcheck import dispatch_entries_are_owned
+    dispatch_entries_are_owned(model, run, "D5-dispatch-entries-are-owned", "bytes no encoder of this library writes are decoded into a message of another kind")
     al = Aligner(ex, run)
     # ---- envelope + per-operation body ------------------------------------------------------
     env = ex.envelope
